@@ -13,6 +13,7 @@ import (
 	"sync/atomic"
 	"time"
 
+	z "github.com/Oudwins/zog"
 	"zogverif/eng"
 )
 
@@ -50,6 +51,60 @@ func main() {
 	var wrong, total int64
 	var first atomic.Value
 	var wg sync.WaitGroup
+	// growth rounds: all goroutines reach, at the same moment, slice indexes no call of this process has reached
+	// before (anything the library builds lazily per index or per depth is built under contention); the
+	// expected issue keys are known without a reference run
+	grow := z.Slice(z.String().Len(1))
+	for round := 0; round < 6; round++ {
+		n := 96 << round
+		var gw sync.WaitGroup
+		start := make(chan struct{})
+		for w := 0; w < *workers; w++ {
+			gw.Add(1)
+			go func(w int) {
+				defer gw.Done()
+				items := make([]any, n)
+				typed := make([]string, n)
+				for i := range items {
+					v := "a"
+					if i%7 == 3 {
+						v = "ab"
+					}
+					items[i], typed[i] = v, v
+				}
+				<-start
+				var errs z.ZogIssueMap
+				if w%2 == 0 {
+					var dest []string
+					errs = grow.Parse(items, &dest)
+				} else {
+					errs = grow.Validate(&typed)
+				}
+				atomic.AddInt64(&total, 1)
+				bad := ""
+				want := 0
+				for i := 0; i < n; i++ {
+					if i%7 == 3 {
+						want++
+						k := fmt.Sprintf("[%d]", i)
+						if is := errs[k]; len(is) != 1 || is[0].Path != k {
+							bad = fmt.Sprintf("item %d of %d: issues under %q = %v", i, n, k, is)
+							break
+						}
+					}
+				}
+				if bad == "" && len(errs) != want+1 {
+					bad = fmt.Sprintf("%d keys for %d failing items of %d", len(errs)-1, want, n)
+				}
+				if bad != "" {
+					atomic.AddInt64(&wrong, 1)
+					first.CompareAndSwap(nil, "growth round: "+bad)
+				}
+			}(w)
+		}
+		close(start)
+		gw.Wait()
+	}
 	for w := 0; w < *workers; w++ {
 		wg.Add(1)
 		go func(w int) {
